@@ -1,5 +1,6 @@
 import NomtModel.Store.PushChunkExamples
 import NomtModel.Store.PushChunkSeq
+import NomtModel.Store.PushChunkBridge
 import NomtModel.Props.C16_GenFn
 /-!
 # C16 / C01 (topic: the branch-node encoder as a whole — `BranchNodeBuilder::{new, push, push_chunk}` read back by `get_key`)
@@ -179,6 +180,22 @@ example : BInv (exNewBuilder 4) 2 2 4 14 (fun _ => 0) [] ∧
        exChunkPre.itemB, exChunkPre.hft, exChunkPre.hto, exChunkPre.hpcB, exChunkPre.hpcN, exChunkPre.hpcnN, exChunkPre.FN,
        exChunkPre.hcp, exChunkPre.hupd, exChunkPre.hpre⟩⟩)
      (fun b' _ => RunOK.nil b')⟩
+
+/-- T16.pc-4c **which base nodes**: every page the branch encoder produces under the guard `branchOK` of the branch round trip
+(`T16_rt_branch`: the pages `decodeBranch` reads back as `x` — any prefix / `prefix_compressed` split, separators shorter than
+the prefix included) has what `ChunkPre` asks of the base node: the layout with the cells `sepEnd x`, non-decreasing cells bounded
+by the total, the capacity bound `Fit`, and compressed separators of at most a key. -/
+theorem T16_branch_chunk_base_of_encoder (x : Store.BranchIn) (hok : Store.branchOK x = true) :
+    Lay (Store.pageNats x) x.items.length x.pc x.pl (Store.sepEnd x) x.items.length ∧
+    (∀ i, i < x.items.length → prevCell (Store.sepEnd x) i ≤ Store.sepEnd x i) ∧
+    (∀ i, i < x.items.length → Store.sepEnd x i ≤ Store.sumL (Store.storedLens x.pc x.pl x.items 0)) ∧
+    Fit x.items.length x.pl (Store.sumL (Store.storedLens x.pc x.pl x.items 0)) ∧
+    (∀ i, i < x.items.length → i < x.pc → x.pl + (Store.sepEnd x i - prevCell (Store.sepEnd x) i) ≤ 256) :=
+  Store.base_of_branchOK x hok
+
+example : Store.branchOK (Store.BranchIn.mk 7 2 4 [⟨0xA0 * 2 ^ 248, 3, 11⟩, ⟨0xAC * 2 ^ 248, 6, 12⟩, ⟨0xF0 * 2 ^ 248, 4, 13⟩]
+    (List.replicate 32534 true)) = true := by
+  decide +kernel
 
 /-- T16.pc-4b **capacity from the gauge**: the hypothesis `Fit n pl last` of T16.pc-2 / T16.pc-3 is the builders' documented
 precondition in the terms of the CURRENT source: `branch::node::body_size(prefix_len, total_separator_lengths, n)` (the
